@@ -227,7 +227,7 @@ Definition location_for (st : rd) (k : key) : Z :=
 
 Lemma initialize_endpoint_spec st remote q st' res : Inv st -> initialize_endpoint st remote q = (st', res) ->
   match res with
-  | Raise e => st' = st /\ e <> KeyError
+  | Raise e => st' = st /\ e = BadRequest
   | Ok id => exists k r, id = next_id st /\ r_key r = k /\ r_path r = location_for st k /\ r_links r = [] /\
                          r_timer r = Some (now st + (r_lt r + GRACE_PERIOD) * 1000000, next_seq st) /\
                          st' = registered st k r
@@ -235,20 +235,19 @@ Lemma initialize_endpoint_spec st remote q st' res : Inv st -> initialize_endpoi
 Proof.
   intros I. unfold initialize_endpoint.
   destruct (pop_single_arg q "ep") as [[q1 ep]|e] eqn:E1.
-  2:{ intros H; inv H. split; [reflexivity|]. unfold pop_single_arg in E1. repeat break_match; inv E1; discriminate. }
-  destruct ep as [ep|]; [|intros H; inv H; split; [reflexivity|discriminate]].
+  2:{ intros H; inv H. split; [reflexivity|]. unfold pop_single_arg in E1. repeat break_match; inv E1; reflexivity. }
+  destruct ep as [ep|]; [|intros H; inv H; split; reflexivity].
   destruct (pop_single_arg q1 "d") as [[q2 d]|e] eqn:E2.
-  2:{ intros H; inv H. split; [reflexivity|]. unfold pop_single_arg in E2. repeat break_match; inv E2; discriminate. }
+  2:{ intros H; inv H. split; [reflexivity|]. unfold pop_single_arg in E2. repeat break_match; inv E2; reflexivity. }
   destruct (pop_single_arg q2 "proxy") as [[q3 proxy]|e] eqn:E3.
-  2:{ intros H; inv H. split; [reflexivity|]. unfold pop_single_arg in E3. repeat break_match; inv E3; discriminate. }
+  2:{ intros H; inv H. split; [reflexivity|]. unfold pop_single_arg in E3. repeat break_match; inv E3; reflexivity. }
   destruct (match proxy with Some p => negb (in_strs p ["on"; "yes"; "ondemand"]%string) | None => false end);
-    [intros H; inv H; split; [reflexivity|discriminate]|].
+    [intros H; inv H; split; reflexivity|].
   match goal with |- context [dmem String.eqb ?s "proxy"] => destruct (dmem String.eqb s "proxy") end;
-    [intros H; inv H; split; [reflexivity|discriminate]|].
+    [intros H; inv H; split; reflexivity|].
   set (k := (ep, d)).
   match goal with |- context [Registration_init ?x1 ?x2 ?x3 ?x4 ?x5 ?x6 ?x7] => destruct (Registration_init x1 x2 x3 x4 x5 x6 x7) as [r|r err] eqn:ER end.
-  2:{ intros H; inv H. split; [reflexivity|]. unfold Registration_init in ER. apply update_params_fail_exn in ER.
-      unfold UnboundLocalError in ER. destruct ER as [->|[->| ->]]; discriminate. }
+  2:{ intros H; inv H. split; [reflexivity|]. unfold Registration_init in ER. apply update_params_fail_clean in ER. apply ER. }
   unfold Registration_init in ER. apply update_params_ok in ER. cbn [r_key r_path r_links] in ER. destruct ER as (Rk & Rp & Rl & Rt).
   destruct (dget key_eqb (by_key st) k) as [oid|] eqn:Eold'.
   - pose proof (dget_In key_eqb key_eqb_spec _ _ _ Eold') as Eold.
